@@ -9,6 +9,7 @@ import SpoxModel.Generated.Conforms_v21
 import SpoxModel.Generated.Conforms_ml_v3
 import SpoxModel.Generated.Conforms_ml_v4
 import SpoxModel.Generated.Conforms_ml_v5
+import SpoxModel.Generated.AdaptAttrInventory
 /-!
 # C11 — every shipped operator constructor conforms to its ONNX schema
 
@@ -331,6 +332,38 @@ example : (callAttrsE Generated.Ctors.v17.f_eye_like (fun _ => Spell.none)).map 
     (callAttrsE Generated.Ctors.v17.f_eye_like
       (fun n => if n = "k" then Spell.omitted else Spell.none)).map emitAttrs =
       some [("k", Val.int 0)] := by decide +kernel
+
+/-! ## tie G for the spelling model: the override table of `_attributes.py` -/
+
+/-- **attr_classes_covered.** The classes of `src/spox/_attributes.py` as read from the source on this
+    run — bases, the methods each class body defines (which class overrides `__init__` / `maybe` /
+    `_validate` / `_to_onnx_deref`), class-level assignments (`_attribute_proto_type`), raise sites — are
+    exactly the ones `Conform.mkAttr` was written against. -/
+theorem attr_classes_covered :
+    Generated.AdaptAttrInventory.attrClasses = Conform.coveredAttrClasses :=
+  eq_of_beq (by decide +kernel)
+
+/-- **dtype_exits_covered.** … and so are the exits of `dtype_to_tensor_type`. -/
+theorem dtype_exits_covered :
+    Generated.AdaptAttrInventory.dtypeExits.map (fun e => (e.1, e.2.2)) = Conform.coveredDtypeExits := by
+  decide +kernel
+
+/-- **dtype_raises_typeerror.** Every `raise` of `dtype_to_tensor_type` raises a `TypeError` built on
+    the spot (no bare re-raise of numpy's / onnx's exception): the "TypeError family" of
+    `conforming_call_total` for dtype-valued attributes, whatever input triggers it. -/
+theorem dtype_raises_typeerror :
+    Generated.AdaptAttrInventory.dtypeExits.all
+      (fun e => e.1 != "raise" || e.2.1.startsWith "TypeError(") = true := by decide +kernel
+
+/-- only `Attr` and `_AttrIterable` define `maybe`; no class but `AttrTensor`, `_AttrIterable`,
+    `AttrTensors` (and the bases `Attr`, `_Ref`) has an `__init__` of its own -/
+theorem attr_overrides_shape :
+    (Generated.AdaptAttrInventory.attrClasses.filter (fun c => c.2.2.1.contains "maybe")).map (·.1)
+      = ["Attr", "_AttrIterable"] ∧
+    (Generated.AdaptAttrInventory.attrClasses.filter (fun c => c.2.2.1.contains "__init__")).map (·.1)
+      = ["Attr", "_Ref", "AttrTensor", "_AttrIterable", "AttrTensors"] ∧
+    (Generated.AdaptAttrInventory.attrClasses.filter (fun c => c.2.2.1.contains "_validate")).map (·.1)
+      = ["Attr", "AttrDtype", "AttrGraph"] := by decide +kernel
 
 open Generated.Conforms in
 /-- the deviating pairs conform in everything but their listed deviation -/
